@@ -51,17 +51,18 @@ class Context:
         self.level = 'other'
         self.exhaustive = False
         self.trusted_base: List[str] = []
+        self.alias = {}     # rule-label aliases while a rule shared with another property runs
 
     # -- recording -------------------------------------------------------------
     def holds(self, rule, at, function, fact):
-        self.instances.append(Instance(f'{self.prop}.{rule}', at, function, None, 'holds', fact))
+        self.instances.append(Instance(f'{self.prop}.{self.alias.get(rule, rule)}', at, function, None, 'holds', fact))
 
     def violation(self, rule, at, function, construct, fact):
         """construct: normalised key (no line numbers / local names) used to match known findings."""
-        self.instances.append(Instance(f'{self.prop}.{rule}', at, function, construct, 'violation', fact))
+        self.instances.append(Instance(f'{self.prop}.{self.alias.get(rule, rule)}', at, function, construct, 'violation', fact))
 
     def note(self, rule, at, function, fact):
-        self.instances.append(Instance(f'{self.prop}.{rule}', at, function, None, 'note', fact))
+        self.instances.append(Instance(f'{self.prop}.{self.alias.get(rule, rule)}', at, function, None, 'note', fact))
 
     def check(self, cond, rule, at, function, construct, fact_ok, fact_bad=None):
         if cond:
@@ -72,7 +73,7 @@ class Context:
 
     def expect_count(self, rule, what, found, minimum):
         if found < minimum:
-            if any(i.verdict == 'violation' and i.rule == f'{self.prop}.{rule}' for i in self.instances):
+            if any(i.verdict == 'violation' and i.rule == f'{self.prop}.{self.alias.get(rule, rule)}' for i in self.instances):
                 return   # the missing instances were reported as violations of this rule
             raise AnalysisError(f'rule={self.prop}.{rule} {what}: expected>={minimum} found={found} '
                                 f'(anchor moved or idiom no longer recognised)')
